@@ -1231,6 +1231,8 @@ def run_equality(ck, it, exe_model, triples, label, annotate_rng=None):
             ck.violation("eq-vs-reference", "== differs from structural equality of the data", rep)
         elif mod != [ab, bc, ac]:
             corr_fail(ck, "correspondence:eq-model-vs-interpreter", json.dumps(rep)[:1200])
+            if ck.stats.get("disagreements:correspondence:eq-model-vs-interpreter", 0) <= 3:
+                law_battery(ck, it, [("a", dv_nickel(a)), ("b", dv_nickel(b)), ("c", dv_nickel(c))], "search around a model/interpreter disagreement in stream " + label)
     a, b, c = triples[0]
     ck.sample({"stream": label, "a": dv_nickel(a)[:150], "b": dv_nickel(b)[:150], "impl": (impl[0] or "")[:120], "model": mo[0]})
 
@@ -1465,6 +1467,7 @@ def run_xequality(ck, it, exe_model, pairs, label):
             if not mo[i].startswith("OK"):
                 singles.append(i)
     impl = it.eval_many(exprs, singles)
+    disagreements = []
     for (a, b), m, im in zip(pairs, mo, impl):
         im = norm_impl(im or "<none>")
         na, nb = xv_norm([], a), xv_norm([], b)
@@ -1490,10 +1493,185 @@ def run_xequality(ck, it, exe_model, pairs, label):
                 ck.violation("eq-sym", "a == b differs from b == a", rep)
             elif mres != ("OK true" if ab else "OK false"):
                 corr_fail(ck, "correspondence:xeq-model-vs-interpreter", json.dumps(rep)[:1500])
+                disagreements.append((a, b))
         elif mres != im:
             corr_fail(ck, "correspondence:xeq-model-vs-interpreter", json.dumps(rep)[:1500])
+            disagreements.append((a, b))
+    search_equality(ck, it, core.SplitMix64(ck.seed * 7919 + len(pairs)), disagreements, label)
     a, b = pairs[0]
     ck.sample({"stream": label, "a": xv_nickel(a)[:160], "b": xv_nickel(b)[:160], "impl": (impl[0] or "")[:80], "model": mo[0]})
+
+
+# ===================================================================== search for a failing law (DESIGN §1.4)
+REBUILD = ("let rec rebuild = fun v => if std.is_array v then std.array.map rebuild v "
+           "else if std.is_record v then std.record.map (fun _k x => rebuild x) v else v in ")
+
+
+def derived_values(named):
+    """named: [(name, closed nickel text)].  Each value, a copy re-built element by element (which
+    forces pending contracts), and the value after a JSON export/import round trip.
+    Returns [(label, closed text)]."""
+    out = []
+    for name, txt in named:
+        out.append((name, "(%s)" % txt))
+        out.append((name + "~rebuilt", "(%s rebuild (%s))" % (REBUILD, txt)))
+        out.append((name + "~json", "(std.deserialize 'Json (std.serialize 'Json (%s)))" % txt))
+    return out
+
+
+def law_battery(ck, it, named, context, max_report=1):
+    """Direct oracles on the interpreter alone, around the given values: reflexivity, symmetry,
+    transitivity over all derived values, and agreement of == with equality of the canonical trees
+    the interpreter itself prints.  Reports the first failing law as a violation whose replay holds
+    the concrete (closed) values.  Returns the number of violations reported."""
+    vals = derived_values(named)
+    n = len(vals)
+    exprs = ["(%s == %s)" % (vals[i][1], vals[j][1]) for i in range(n) for j in range(n)]
+    outs = [norm_impl(o or "<none>") for o in it.eval_many(exprs)]
+    itf = Interp(ck, flags="full", batch=it.batch)
+    trees = [norm_impl(o or "<none>") for o in itf.eval_many([v[1] for v in vals])]
+    it.programs += itf.programs
+    ck.count("law_battery_equalities", len(exprs))
+    M = [[outs[i * n + j] for j in range(n)] for i in range(n)]
+    val = lambda i, j: {"OK true": True, "OK false": False}.get(M[i][j])
+    found = []
+
+    def report(key, text, i, j, k=None):
+        k = j if k is None else k
+        rep = {"kind": "equality", "a": vals[i][1], "b": vals[j][1], "c": vals[k][1], "law": key,
+               "labels": [vals[i][0], vals[j][0], vals[k][0]], "context": context,
+               "answers": {"a==b": M[i][j], "b==a": M[j][i], "b==c": M[j][k], "a==c": M[i][k], "a==a": M[i][i]},
+               "trees": {"a": trees[i], "b": trees[j], "c": trees[k]}, "key": key,
+               "how_to_replay": "./verif check C16 --replay <this file>"}
+        found.append(key)
+        ck.violation(key, text + " -- a = %s ; b = %s%s" % (vals[i][1][:160], vals[j][1][:160], (" ; c = " + vals[k][1][:160]) if k != j else ""), rep)
+
+    for i in range(n):
+        if len(found) >= max_report:
+            return len(found)
+        if trees[i].startswith("OK") and val(i, i) is not True:
+            report("eq-refl", "a == a is `%s` on a value that evaluates to data" % M[i][i], i, i)
+    for i in range(n):
+        for j in range(i + 1, n):
+            if len(found) >= max_report:
+                return len(found)
+            if val(i, j) is not None and val(j, i) is not None and val(i, j) != val(j, i):
+                report("eq-sym", "a == b is %s but b == a is %s" % (val(i, j), val(j, i)), i, j)
+    for i in range(n):
+        for j in range(n):
+            if len(found) >= max_report:
+                return len(found)
+            if i != j and trees[i].startswith("OK") and trees[j].startswith("OK") and val(i, j) is not None \
+                    and (trees[i] == trees[j]) != val(i, j):
+                report("eq-vs-export", "a == b is %s but the canonical trees of a and b are %s" % (
+                    val(i, j), "equal" if trees[i] == trees[j] else "different"), i, j)
+    for i in range(n):
+        for j in range(n):
+            for k in range(n):
+                if len(found) >= max_report:
+                    return len(found)
+                if val(i, j) is True and val(j, k) is True and val(i, k) is False:
+                    report("eq-trans", "a == b and b == c but not a == c", i, j, k)
+    return len(found)
+
+
+# ---- values whose pending contracts CHANGE them (defaults): the family the validating-contract
+# model does not cover; direct oracles only
+def gen_changing_pair(rng):
+    """(plain text, lazy text, should be equal?): the same array of records, once written out, once
+    with a field left to the default value of a pending `Array {k | default = v, ..}` contract."""
+    k = rng.choice(["a", "b"])
+    v = rng.range(0, 3)
+    n = rng.range(1, 4)
+    elems = []
+    for _ in range(n):
+        e = {}
+        for key in ["a", "b", "c"]:
+            if rng.chance(2, 3):
+                e[key] = rng.range(0, 3)
+        if rng.chance(1, 2):
+            e[k] = v
+        elems.append(e)
+
+    def rec(e):
+        return "{" + ", ".join("%s = %d" % kv for kv in sorted(e.items())) + "}"
+    plain_elems = [dict(e) for e in elems]
+    for e in plain_elems:
+        e.setdefault(k, v)
+    lazy_elems = [dict(e) for e in elems]
+    for e in lazy_elems:
+        if e.get(k) == v and rng.chance(2, 3):
+            del e[k]
+    same = True
+    if rng.chance(1, 4):           # a genuinely different pair
+        i = rng.below(n)
+        key = rng.choice(["a", "b", "c"])
+        plain_elems[i][key] = plain_elems[i].get(key, 0) + 5
+        same = False
+    plain = "[" + ", ".join(rec(e) for e in plain_elems) + "]"
+    lazy = "([" + ", ".join(rec(e) for e in lazy_elems) + "] | Array {%s | default = %d, ..})" % (k, v)
+    shape = rng.below(5)
+    wrap = [lambda t: t, lambda t: "{x = %s, y = 1}" % t, lambda t: "('T %s)" % t, lambda t: "[%s, []]" % t,
+            lambda t: "{p = {q = %s}}" % t][shape]
+    if shape == 3 and rng.chance(1, 2):
+        return "[%s, []]" % plain, "([%s, []] | Array (Array Dyn))" % lazy, same
+    return wrap(plain), wrap(lazy), same
+
+
+def run_changing_contracts(ck, it, n, label="value-changing-contracts"):
+    def go(rng):
+        pairs = [gen_changing_pair(rng) for _ in range(n)]
+        exprs = ["(let P = %s in let L = %s in [P == L, L == P, P == P, L == L])" % (p, l) for p, l, _ in pairs]
+        outs = it.eval_many(exprs)
+        itf = Interp(ck, flags="full", batch=it.batch)
+        trees = itf.eval_many(["[%s, %s]" % (p, l) for p, l, _ in pairs])
+        it.programs += itf.programs
+        bad = 0
+        for (p, l, same), o, t in zip(pairs, outs, trees):
+            ck.case(key=p + l, nontrivial=True)
+            ck.hist("equality_cases", label)
+            o = norm_impl(o or "<none>")
+            ts = split_top(t[4:-1]) if t and t.startswith("OK [") else None
+            ok = o.startswith("OK [") and ts is not None and len(ts) == 2
+            if ok:
+                pl, lp, pp, ll = [x == "true" for x in split_top(o[4:-1])]
+                ok = pp and ll and pl == lp and pl == (ts[0] == ts[1]) and pl == same
+            if not ok:
+                bad += 1
+                if bad <= 2:        # the battery names the law and writes the replay
+                    if not law_battery(ck, it, [("plain", p), ("lazy", l)], label):
+                        ck.violation("eq-pending-contracts", "== on an array whose pending contract supplies default values: [P==L, L==P, P==P, L==L] = %s, trees %s, expected %s -- P = %s ; L = %s" % (o, t, same, p, l),
+                                     {"kind": "equality", "a": p, "b": l, "c": l, "key": "eq-pending-contracts"})
+        return bad
+    return go
+
+
+def xv_permute(rng, x):
+    k = x[0]
+    if k == "v":
+        return ("v", x[1], xv_permute(rng, x[2]))
+    if k == "a":
+        return ("a", x[1], [xv_permute(rng, y) for y in x[2]])
+    if k == "r":
+        return ("r", rng.shuffle([(key, opt, cs, None if v is None else xv_permute(rng, v)) for key, opt, cs, v in x[1]]))
+    return x
+
+
+def search_equality(ck, it, rng, disagreements, label):
+    """Model and interpreter disagree on some `a == b`: look for a concrete failure of the property on
+    the interpreter.  (a) the law battery around each disagreeing pair (the operands, permuted
+    copies, re-built copies, export/import copies); (b) a focused generator around the subject
+    (arrays/records whose pending contracts matter), with a larger budget."""
+    if not disagreements:
+        return
+    hits = 0
+    for a, b in disagreements[:4]:
+        named = [("a", xv_nickel(a)), ("b", xv_nickel(b)), ("a~permuted", xv_nickel(xv_permute(rng, a))), ("b~permuted", xv_nickel(xv_permute(rng, b)))]
+        hits += law_battery(ck, it, named, "search around a model/interpreter disagreement in stream " + label)
+    if not hits:
+        hits += run_changing_contracts(ck, it, 1200, "search:value-changing-contracts")(rng.fork())
+    ck.coverage["search"] = "ran after %d model/interpreter disagreement(s) on ==: %s" % (
+        len(disagreements), "a law fails on the interpreter" if hits else "no law failure found on the interpreter")
 
 
 # ---- pinned corner cases of == and pow, evaluated by the interpreter only.
@@ -1672,6 +1850,8 @@ def run(ck):
     run_equality(ck, it, exe_model, tri, "small-universe")
     # 5. extended values: pending contracts, optional / undefined fields, erroring elements (evaluation order)
     run_xequality(ck, it, exe_model, gen_xpairs(rng.fork(), 1500 if quick else 30000), "extended")
+    # 6. pending contracts that change the value (defaults): laws and canonical-tree agreement on the interpreter alone
+    run_changing_contracts(ck, it, 400 if quick else 8000)(rng.fork())
     ck.coverage["interpreter_programs"] = it.programs
     ck.coverage["rule"] = ("numeric: every p/q with |p|<=%d, q<=%d in every spelling (fraction, integer, decimal, exponent-, exponent+, leading zeros, E+0, leading dot) "
                            "x unary std functions; pairs x {+,-,*,/,%%,<,<=,>,>=,==,!=,min,max,compare,pow} (thorough: all pairs; quick: seeded sample); "
@@ -1711,8 +1891,10 @@ def replay_case(ck, it, exe_model, obj):
             ck.violation(obj.get("key", "eq-error"), "== raised " + o, obj)
         else:
             ab, ba, bc, ac, aa = [v == "true" for v in split_top(o[4:-1])]
-            if not aa or ab != ba or (ab and bc and not ac):
-                ck.violation(obj.get("key", "eq-laws"), "equality laws fail: " + o, obj)
+            t = Interp(ck, flags="full").eval_many(["[%s, %s]" % (obj["a"], obj["b"])], singles=[0])[0]
+            ts = split_top(t[4:-1]) if t and t.startswith("OK [") else None
+            if not aa or ab != ba or (ab and bc and not ac) or (ts is not None and len(ts) == 2 and (ts[0] == ts[1]) != ab):
+                ck.violation(obj.get("key", "eq-laws"), "equality laws fail: [a==b, b==a, b==c, a==c, a==a] = %s, trees of a, b: %s" % (o, t), obj)
 
 
 def tupleize(x):
